@@ -483,7 +483,9 @@ def var2h(se, nbsec_per_period=3600, maxgapsec=5*86400,
     varvalues = se.values.astype(np.float64)
 
     time = se.index.tz_localize(None).values
-    varsec = np.int64(time.astype(np.int64)/1000000000)
+    # seconds since epoch whatever the storage resolution of the index
+    # (the integer view of a datetime64 array is in the unit of the index)
+    varsec = time.astype("datetime64[s]").astype(np.int64)
 
     # Determines start and end of time series
     start = se.index[0]
